@@ -107,6 +107,20 @@ _COPYRIGHT_PATTERNS = [
 
 _LICENSEREF_PATTERN = re.compile("LicenseRef-[a-zA-Z0-9-.]+$")
 
+
+def find_copyright_match(line: str) -> Optional[re.Match]:
+    """Find the copyright notice in *line*. It starts at the leftmost marker:
+    in '© 2019 Copyright Clearance Center' the word 'Copyright' belongs to the
+    holder.
+    """
+    matches = [pattern.search(line) for pattern in _COPYRIGHT_PATTERNS]
+    return min(
+        (match for match in matches if match is not None),
+        key=lambda match: match.start(),
+        default=None,
+    )
+
+
 # Amount of bytes that we assume will be big enough to contain the entire
 # comment header (including SPDX tags), so that we don't need to read the
 # entire file.
@@ -173,25 +187,24 @@ def extract_reuse_info(text: str) -> ReuseInfo:
             )
             raise ExpressionError(f"Could not parse '{expression}'") from error
     for line in text.splitlines():
-        for pattern in _COPYRIGHT_PATTERNS:
-            match = pattern.search(line)
-            if match is not None:
-                notice = match.groupdict()["copyright"].strip()
-                # Like find_spdx_tag: if the line is framed with ASCII art,
-                # strip the mirrored comment prefix from the end. Require a
-                # blank before it, so that a holder that merely ends in the
-                # comment character ('# Copyright Team C#') is left alone. A
-                # prefix made of letters ('c', 'dnl') is never a frame.
-                suffix = line[: match.start()].strip()[::-1]
-                if (
-                    suffix
-                    and not any(char.isalnum() for char in suffix)
-                    and notice.endswith(suffix)
-                    and notice[: -len(suffix)][-1:].isspace()
-                ):
-                    notice = notice[: -len(suffix)].strip()
-                copyright_matches.add(notice)
-                break
+        match = find_copyright_match(line)
+        if match is None:
+            continue
+        notice = match.groupdict()["copyright"].strip()
+        # Like find_spdx_tag: if the line is framed with ASCII art, strip the
+        # mirrored comment prefix from the end. Require a blank before it, so
+        # that a holder that merely ends in the comment character ('# Copyright
+        # Team C#') is left alone. A prefix made of letters ('c', 'dnl') is
+        # never a frame.
+        suffix = line[: match.start()].strip()[::-1]
+        if (
+            suffix
+            and not any(char.isalnum() for char in suffix)
+            and notice.endswith(suffix)
+            and notice[: -len(suffix)][-1:].isspace()
+        ):
+            notice = notice[: -len(suffix)].strip()
+        copyright_matches.add(notice)
 
     return ReuseInfo(
         spdx_expressions=expressions,
